@@ -560,6 +560,9 @@ class Group(System):
         """
         super()._setup_procs(pathname, comm, prob_meta)
 
+        # the connections may have changed since the last setup (every group, not only the model)
+        self._sys_graph_cache = None
+
         nproc = comm.size
 
         if self._num_par_fd > 1:
